@@ -32,17 +32,24 @@ package muxrun
 //	             which hands the error to every registered call - and BLOCKS on each call that is inside Write or waits
 //	             for the write slot until that call gets on. Ends when c.closed is set. (From here on no call of this
 //	             connection is marked any more: closeWithError and releaseStream share the Once of the two callbacks.)
+//	t<k> Q<n>    WRITE FAULT: t arms it on the current connection's transport - the peer accepts k more Writes (request
+//	             frames), then ONE Write accepts nothing and reports a write-deadline expiry, later Writes are accepted
+//	             again; Q starts n > k calls TOGETHER (with the coalescer: one batch or several). The call whose Write
+//	             failed closes the connection, every call of it ends with an error of the connection. Ends when all
+//	             that has happened (or when all n requests have reached the peer after all).
 //	k            Conn.Close() of the current connection (only when none of its calls is held / waiting for the slot / parked)
 //
 // Answer: `s=<ids>` the stream id of every call whose request the peer read (`-`: none was written) - the Lean side
 // runs the id allocator of internal/streams -, `a=<n>`..., `;`, one letter per call (R C X W as in own.go, B the
-// buildFrame error, anything else is a violation), `|`, open/closed per connection.
+// buildFrame error, anything else is a violation), `|`, open/closed per connection; `dup=<n>`: request frames the
+// peer read that it had read before (a request is put on the wire once).
 // Lean side: Driver/C01.lean dsAnswer, one machine Model/MuxOwn.lean per connection.
 
 import (
 	"bytes"
 	"context"
 	"fmt"
+	"net"
 	"runtime"
 	"strconv"
 	"strings"
@@ -70,6 +77,7 @@ type schedCall struct {
 	due       bool
 	answered  bool
 	written   bool
+	anyID     bool // started together with others: which id it was given is not determined
 	cancelled bool
 	cancel    context.CancelFunc
 	done      chan struct{}
@@ -117,7 +125,39 @@ func (schedObs) StreamContext(ctx context.Context) gocql.StreamObserverContext {
 	return nil
 }
 
+// schedNet is the transport with a WRITE FAULT: the (failAt+1)-th Write from the moment the fault is armed accepts
+// nothing and reports a write-deadline expiry (a net.Error with Timeout() true) - once; the Writes before and after it
+// are accepted (a peer that stopped reading for a while).
+type schedNet struct {
+	*jrTransport
+	fmu    sync.Mutex
+	armed  bool
+	failAt int
+	fired  bool
+}
+
+type schedTimeoutErr struct{}
+
+func (schedTimeoutErr) Error() string   { return "verif: write deadline exceeded (i/o timeout)" }
+func (schedTimeoutErr) Timeout() bool   { return true }
+func (schedTimeoutErr) Temporary() bool { return true }
+
+func (n *schedNet) Write(p []byte) (int, error) {
+	n.fmu.Lock()
+	if n.armed {
+		if n.failAt == 0 {
+			n.armed, n.fired = false, true
+			n.fmu.Unlock()
+			return 0, &net.OpError{Op: "write", Net: "verif", Err: schedTimeoutErr{}}
+		}
+		n.failAt--
+	}
+	n.fmu.Unlock()
+	return n.jrTransport.Write(p)
+}
+
 type schedConn struct {
+	nt   *schedNet
 	tr   *jrTransport
 	conn *gocql.VerifC06Conn
 	cur  int
@@ -168,9 +208,10 @@ func RunSched(line string) (ans string) {
 	var conns []*schedConn
 	for k := 0; k < 2; k++ {
 		tr := newJrTransport()
-		conn := gocql.VerifC06NewConn(tr, proto, coalesce, time.Hour, nil)
+		nt := &schedNet{jrTransport: tr}
+		conn := gocql.VerifC06NewConn(nt, proto, coalesce, time.Hour, nil)
 		conn.VerifC01fSetStreamObserver(schedObs{})
-		conns = append(conns, &schedConn{tr: tr, conn: conn, cur: -1})
+		conns = append(conns, &schedConn{nt: nt, tr: tr, conn: conn, cur: -1})
 	}
 	cap := conns[0].conn.Cap()
 	var calls []*schedCall
@@ -562,6 +603,70 @@ func RunSched(line string) (ans string) {
 				return "bad-op"
 			}
 			out = append(out, fmt.Sprintf("a=%d", cap-1-cn.conn.Avail()))
+		case 't':
+			k, err := strconv.Atoi(st[1:])
+			if err != nil || !plain || k < 0 || k > 8 || cn.zed {
+				return "bad-op"
+			}
+			cn.nt.fmu.Lock()
+			armedAlready := cn.nt.armed
+			cn.nt.armed, cn.nt.failAt = true, k
+			cn.nt.fmu.Unlock()
+			if armedAlready {
+				return "bad-op"
+			}
+		case 'Q':
+			n, err := strconv.Atoi(st[1:])
+			cn.nt.fmu.Lock()
+			armed, k := cn.nt.armed, cn.nt.failAt
+			cn.nt.fmu.Unlock()
+			busy := false
+			for _, c := range calls {
+				if c.conn == cc && (c.held || c.queued || c.gated.Load()) {
+					busy = true
+				}
+			}
+			if err != nil || !plain || n < 1 || n > 6 || !armed || k >= n || cn.zed || !quiet(cc) || busy || len(calls)+n > 40 {
+				return "bad-op"
+			}
+			// n calls started TOGETHER (with the coalescer: one batch, or several): the peer accepts k request frames, then
+			// one Write reports the write deadline. The step ends when the driver has closed the connection and every call
+			// of it has returned - or when all n requests have reached the peer after all
+			var batch []*schedCall
+			for j := 0; j < n; j++ {
+				c := &schedCall{idx: len(calls) + 1, typ: 'q', conn: cc, L: 5, done: make(chan struct{}), gate: make(chan struct{}), gate1: make(chan struct{}), anyID: true}
+				ctx, cancel := context.WithCancel(context.WithValue(context.Background(), schedKey{}, c))
+				c.cancel = cancel
+				calls = append(calls, c)
+				batch = append(batch, c)
+				go func() { defer guard(c); c.res = cn.conn.Exec(ctx, fmt.Sprintf("J%d.", c.idx)) }()
+			}
+			cn.zed = true
+			for _, c := range calls {
+				if c.conn == cc {
+					c.park.Store(false)
+				}
+			}
+			waitFor(func() bool {
+				all := true
+				for _, c := range batch {
+					if !noteWritten(c) {
+						all = false
+					}
+				}
+				if all {
+					return true
+				}
+				if !cn.tr.isClosed() {
+					return false
+				}
+				for _, c := range calls {
+					if c.conn == cc && !c.parked.Load() && !isDone(c) {
+						return false
+					}
+				}
+				return true
+			}, fmt.Sprintf("after a write-deadline expiry the connection was not closed / its calls did not return (%q)", st0))
 		case 'k', 'z':
 			busy, blocking := false, false
 			for _, c := range calls {
@@ -626,7 +731,23 @@ func RunSched(line string) (ans string) {
 		if c.written {
 			ids[i] = strconv.Itoa(c.sid)
 		}
+		if c.anyID {
+			ids[i] = "*"
+		}
 	}
+	// every request frame the peer read, it read once
+	dup := 0
+	for _, cn := range conns {
+		seen := map[string]bool{}
+		for _, f := range cn.tr.requests(proto) {
+			key := fmt.Sprintf("%d/%d/%x", f.Stream, f.Op, f.Body)
+			if seen[key] {
+				dup++
+			}
+			seen[key] = true
+		}
+	}
+	out = append(out, fmt.Sprintf("dup=%d", dup))
 	out = append([]string{"s=" + strings.Join(ids, ",")}, out...)
 	out = append(out, ";")
 	for _, c := range calls {
@@ -877,6 +998,36 @@ func GenSched(r *vh.Rng) (line, class string) {
 		if r.Intn(2) == 0 {
 			unhold(1 - cc)
 		}
+	case f < 6 && f >= 5:
+		// a WRITE FAULT: some calls waiting, then n calls started together of whose requests the peer accepts k before one
+		// Write reports the write deadline (a peer that stops reading for a while, then reads again)
+		if r.Intn(2) == 0 {
+			cc = 1
+			add("@2")
+		}
+		for i := r.Intn(3); i > 0; i-- {
+			start('q')
+		}
+		nb := 2 + r.Intn(4)
+		kb := r.Intn(nb)
+		if kb == 0 && r.Intn(3) > 0 {
+			kb = 1
+		}
+		add("t%d", kb)
+		add("Q%d", nb)
+		feats["write-deadline-in-batch"] = true
+		conns[cc].zed = true
+		for _, c := range calls {
+			c.park = false
+			if !c.parked {
+				c.done = true
+			}
+		}
+		for i := 0; i < nb; i++ {
+			calls = append(calls, &cs{typ: 'q', conn: cc, done: true, gone: true})
+		}
+		cc = 1 - cc
+		add("@%d", cc+1)
 	case f < 5:
 		// a call parked inside releaseStream (its id is free) while further calls are started on its connection
 		for i := r.Intn(3); i > 0; i-- {
@@ -1043,7 +1194,7 @@ func GenSched(r *vh.Rng) (line, class string) {
 	add("@2")
 	add("a")
 	class = "ds"
-	for _, f := range []string{"registration-after-close", "early-exit-while-closing", "close-while-inside-exec", "parked-in-release", "stopped-before-registration", "early-exit", "waits-for-write-slot", "answer-before-write-returned", "build-error"} {
+	for _, f := range []string{"write-deadline-in-batch", "registration-after-close", "early-exit-while-closing", "close-while-inside-exec", "parked-in-release", "stopped-before-registration", "early-exit", "waits-for-write-slot", "answer-before-write-returned", "build-error"} {
 		if feats[f] {
 			class += "/" + f
 			break
